@@ -30,6 +30,8 @@ impl fmt::Debug for Deferred {
 impl Deferred {
     /// Constructs a new `Deferred` from a `FnOnce()`.
     pub(crate) fn new<F: FnOnce()>(f: F) -> Self {
+        #[cfg(feature = "circ_verif")]
+        crate::verif::ev(crate::verif::kind::DEFERRED_NEW, mem::size_of::<F>(), mem::align_of::<F>(), 0);
         let size = mem::size_of::<F>();
         let align = mem::align_of::<F>();
 
@@ -72,6 +74,8 @@ impl Deferred {
     /// Calls the function.
     #[inline]
     pub(crate) fn call(mut self) {
+        #[cfg(feature = "circ_verif")]
+        crate::verif::ev(crate::verif::kind::DEFERRED_CALL, 0, 0, 0);
         let call = self.call;
         unsafe { call(self.data.as_mut_ptr().cast::<u8>()) };
     }
